@@ -101,6 +101,7 @@ class Sim(object):
 
     # ---- processes ---------------------------------------------------------
     def run(self, spec, stdin_fn=None):
+        K._rp_cache.clear()       # the world may have been changed from outside since the last run
         self.npid += 1
         pid = self.npid
         if 'rand' in spec:
